@@ -102,9 +102,13 @@ func geometry(chain []WinSpec) (ox, oy, w, h int, clip rect) {
 	return
 }
 
-func build(vx *vaxis.Vaxis, chain []WinSpec) vaxis.Window {
+func build(vx *vaxis.Vaxis, chain []WinSpec, detached bool) vaxis.Window {
 	win := vx.Window()
-	for _, s := range chain {
+	for i, s := range chain {
+		if i == 0 && detached && s.Literal {
+			win = vaxis.Window{Vx: vx, Column: s.Col, Row: s.Row, Width: s.W, Height: s.H}
+			continue
+		}
 		if s.Literal {
 			parent := win
 			win = vaxis.Window{Vx: vx, Parent: &parent, Column: s.Col, Row: s.Row, Width: s.W, Height: s.H}
@@ -131,6 +135,9 @@ type ccase struct {
 	Caps  uint32    `json:"caps_mask"`
 	Chain []WinSpec `json:"chain"`
 	Op    Op        `json:"op"`
+	// Detached: the first window of the chain is a literal Window value
+	// without a parent (offsets and size relative to the screen)
+	Detached bool `json:"first_window_has_no_parent,omitempty"`
 }
 
 var sentinel = vxh.AppCell{G: ".", Style: vxh.AppStyle{Bg: refterm.Color{K: refterm.ColIndexed, V: 4}}}
@@ -218,7 +225,10 @@ func (e *env) run(cc ccase) {
 	defer w.End()
 	e.reset()
 	ox, oy, ww, wh, clip := geometry(cc.Chain)
-	win := build(e.sess.Vx, cc.Chain)
+	win := build(e.sess.Vx, cc.Chain, cc.Detached)
+	if cc.Detached && len(cc.Chain) > 0 && cc.Chain[0].Literal {
+		w.Count("windows_without_a_parent", 1)
+	}
 	// the window's own idea of its size must follow the documented rules
 	gw, gh := win.Size()
 	if gw != ww || gh != wh {
@@ -646,23 +656,24 @@ func (c check) Run(w *harness.W, b harness.Batch) {
 								continue
 							}
 							chain := []WinSpec{{c0, r0, w0, h0, lit}}
-							e.run(ccase{caps, chain, Op{Kind: "fill", G: "f"}})
-							e.run(ccase{caps, chain, Op{Kind: "clear"}})
+							det := lit && k%2 == 0
+							e.run(ccase{Detached: det, Caps: caps, Chain: chain, Op: Op{Kind: "fill", G: "f"}})
+							e.run(ccase{Detached: det, Caps: caps, Chain: chain, Op: Op{Kind: "clear"}})
 							// a sample of coordinates per window, all of them over the batch
 							for n := 0; n < 6; n++ {
 								x, y := coords[r.Intn(len(coords))], coords[r.Intn(len(coords))]
 								g := []string{"x", "x", "\u4f60"}[r.Intn(3)]
-								e.run(ccase{caps, chain, Op{Kind: "setcell", Col: x, Row: y, G: g}})
+								e.run(ccase{Detached: det, Caps: caps, Chain: chain, Op: Op{Kind: "setcell", Col: x, Row: y, G: g}})
 							}
 							x, y := coords[r.Intn(len(coords))], coords[r.Intn(len(coords))]
-							e.run(ccase{caps, chain, Op{Kind: "setstyle", Col: x, Row: y}})
+							e.run(ccase{Detached: det, Caps: caps, Chain: chain, Op: Op{Kind: "setstyle", Col: x, Row: y}})
 							// depth 2 below this window
 							for n := 0; n < 3; n++ {
 								c2 := WinSpec{offs[r.Intn(len(offs))], offs[r.Intn(len(offs))], sizes[r.Intn(len(sizes))], sizes[r.Intn(len(sizes))], r.Intn(4) == 0}
 								ch2 := []WinSpec{chain[0], c2}
-								e.run(ccase{caps, ch2, Op{Kind: "fill", G: "g"}})
+								e.run(ccase{Detached: det, Caps: caps, Chain: ch2, Op: Op{Kind: "fill", G: "g"}})
 								x, y := coords[r.Intn(len(coords))], coords[r.Intn(len(coords))]
-								e.run(ccase{caps, ch2, Op{Kind: "setcell", Col: x, Row: y, G: []string{"y", "\u597d"}[r.Intn(2)]}})
+								e.run(ccase{Detached: det, Caps: caps, Chain: ch2, Op: Op{Kind: "setcell", Col: x, Row: y, G: []string{"y", "\u597d"}[r.Intn(2)]}})
 							}
 						}
 					}
@@ -709,12 +720,12 @@ func (c check) Run(w *harness.W, b harness.Batch) {
 						if l > 1 && t == 1 {
 							split = 1 + r.Intn(l-1) // the same text as two segments
 						}
-						e.run(ccase{caps, chain, Op{Kind: "print", Text: text, Split: split}})
-						e.run(ccase{caps, chain, Op{Kind: "wrap", Text: text, Split: split}})
+						e.run(ccase{Caps: caps, Chain: chain, Op: Op{Kind: "print", Text: text, Split: split}})
+						e.run(ccase{Caps: caps, Chain: chain, Op: Op{Kind: "wrap", Text: text, Split: split}})
 						if single {
 							row := r.Intn(scrRows+2) - 1
-							e.run(ccase{caps, chain, Op{Kind: "println", Row: row, Text: text, Split: split}})
-							e.run(ccase{caps, chain, Op{Kind: "truncate", Row: row, Text: text, Split: split}})
+							e.run(ccase{Caps: caps, Chain: chain, Op: Op{Kind: "println", Row: row, Text: text, Split: split}})
+							e.run(ccase{Caps: caps, Chain: chain, Op: Op{Kind: "truncate", Row: row, Text: text, Split: split}})
 						}
 					}
 				}
@@ -749,7 +760,7 @@ func (c check) Run(w *harness.W, b harness.Batch) {
 			if r.Intn(2) == 0 {
 				op.Split = 1 + r.Intn(6)
 			}
-			e.run(ccase{caps, chain, op})
+			e.run(ccase{Detached: r.Intn(2) == 0, Caps: caps, Chain: chain, Op: op})
 		}
 	}
 }
